@@ -150,6 +150,53 @@ theorem nullif0V_ne_err (v : DV) (h : v ≠ .err) : nullif0V v ≠ .err := by
 theorem limit_roundtrip (f : LimitForm) (t : Table) : limitSem (genLimit (parseLimit f)) t = limitSem f t := by
   cases f <;> simp [parseLimit, genLimit, limitSem, limitOffset]
 
+-- ------------------------------------------------------------------------------------------ division chains
+/-- DuckDB -> SQLite flags as the theorem uses them: target typed+safe, source neither -/
+abbrev toSqlite (anns : Nat → Ann) : DT → CEx := genT true true ⟨false, false⟩ anns
+
+theorem DT.ann_opnd (anns : Nat → Ann) (i : Nat) : (DT.opnd i).ann anns = anns i := rfl
+
+theorem chainT_ann (anns : Nat → Ann) (h : ∀ i, anns i ≠ .real) (k : Nat) : (chainT k).ann anns ≠ .real := by
+  cases k with
+  | zero => simpa [chainT, DT.ann] using h 0
+  | succ k => simp [chainT, DT.ann]
+
+/-- every level of an unparenthesised chain gets its own CAST: the wrapped left operand is not a Div any more, so
+    `binary` hands it back to `sql()` and `div_sql` runs again one level down -/
+theorem toSqlite_chain_step (anns : Nat → Ann) (h : ∀ i, anns i ≠ .real) (k : Nat) :
+    toSqlite anns (chainT (k + 1)) = .div (.castDouble (toSqlite anns (chainT k))) (.opnd (k + 1)) := by
+  have h1 := chainT_ann anns h k
+  have h2 := h (k + 1)
+  simp only [toSqlite, chainT, genT, flat]
+  simp [h1, h2, DT.ann_opnd]
+
+theorem plainT_chain_step (k : Nat) : plainT (chainT (k + 1)) = .div (plainT (chainT k)) (.opnd (k + 1)) := by
+  simp [chainT, plainT]
+
+/-- chains of ANY length: with integer operands and non-zero divisors the SQLite text computes, level by level,
+    exactly the real number DuckDB computes -/
+theorem chain_eval (anns : Nat → Ann) (h : ∀ i, anns i ≠ .real) (v : Nat → Int) (k : Nat)
+    (hz : ∀ i, 1 ≤ i → i ≤ k + 1 → v i ≠ 0) :
+    ∃ n d, evalC .duckdb (fun i => .int (v i)) (plainT (chainT (k + 1))) = .real n d ∧
+      evalC .sqlite (fun i => .int (v i)) (toSqlite anns (chainT (k + 1))) = .real n d := by
+  induction k with
+  | zero =>
+    have h1 : v 1 ≠ 0 := hz 1 (by omega) (by omega)
+    refine ⟨v 0, v 1, ?_, ?_⟩
+    · simp [plainT, chainT, evalC, divV_duckdb_int, h1]
+    · rw [toSqlite_chain_step anns h 0]
+      simp [toSqlite, chainT, genT, evalC, castDoubleV, divV_real_l, h1]
+  | succ k ih =>
+    obtain ⟨n, d, hd, hs⟩ := ih (fun i h1 h2 => hz i h1 (by omega))
+    have hk : v (k + 2) ≠ 0 := hz (k + 2) (by omega) (by omega)
+    refine ⟨n * 1, d * v (k + 2), ?_, ?_⟩
+    · rw [plainT_chain_step]
+      simp only [evalC, hd]
+      simp [divV_real_l, hk]
+    · rw [toSqlite_chain_step anns h (k + 1)]
+      simp only [evalC, hs, castDoubleV]
+      simp [divV_real_l, hk]
+
 -- ------------------------------------------------------------------------------------------ alias generation
 theorem findNewNameFrom_fresh (taken : List String) (base : String) (fuel i : Nat) (n : String)
     (h : findNewNameFrom taken base fuel i = some n) : n ∉ taken := by
